@@ -103,6 +103,9 @@ def _site_statements(sp):
         ("tonl-closure-param", "_ = func(x *%s) int { return 0 }" % H),
         ("tonl-local-struct", "type ls# struct{ f %s }; _ = ls#{}" % H),
         ("tonl-shadow", "if Mock := func() int { return 1 }; Mock() > 0 {}"),
+        # chained expressions: two uses that begin at the same source position
+        ("tonl-chain-func-method", "%sMockH().Reset()" % q), ("tonl-chain-lit-method", "_ = %s{}.Fire()" % H), ("tonl-chain-plain", "_ = %sGetH().Fire()" % q),
+        ("pkgo-chain-func-method", "_ = %sInternalS().Open()" % q), ("pkgo-chain-lit-method", "_ = %s{}.Look()" % S),
         ("pkgo-func", "_ = %sInternal()" % q), ("pkgo-func-bare", "_ = %sBareOnly()" % q), ("pkgo-func-path", "_ = %sByPath()" % q),
         ("pkgo-func-free", "_ = %sFree()" % q), ("pkgo-method", "_ = s.Open()"), ("pkgo-method-value", "g# := s.Open; _ = g#"),
         ("pkgo-method-free", "_ = s.Peek()"), ("pkgo-method-samename", "_ = h.Open()"), ("pkgo-type-var", "var sv# %s; _ = sv#" % S), ("pkgo-type-lit", "_ = %s{}" % S),
@@ -151,6 +154,10 @@ def gen_decl_package(W, rng, full=False):
     W.add("d", "funcs.go", Decl("Getters", ["func GetT() *T { return NewT() }", "func GetU() *U { return &U{} }", "func GetH() *H { return nil }", "func GetS() *Secret { return nil }"]))
     W.add("d", "funcs.go", Decl("Mock", ["func Mock() int { return 1 }"], doc=pick([["// Mock is for tests.", "// @testonly"], ["// @testonly extra words"], ["// Mock is ordinary."]])))
     W.add("d", "funcs.go", Decl("PlainFn", ["func PlainFn() int { return 2 }"]))
+    W.add("d", "funcs.go", Decl("MockH", ["func MockH() *H { return &H{} }"], doc=pick([["// @testonly"], ["// MockH is ordinary."]])))
+    W.add("d", "funcs.go", Decl("H.Fire", ["func (h H) Fire() int { return h.N }"], doc=pick([["// @testonly"], ["// Fire fires."]])))
+    W.add("d", "funcs.go", Decl("InternalS", ["func InternalS() *Secret { return nil }"], doc=pick([["// @packageonly " + allow_name], ["// InternalS is open."]])))
+    W.add("d", "funcs.go", Decl("Secret.Look", ["func (s Secret) Look() int { return s.V }"], doc=pick([["// @packageonly " + allow_name], ["// @packageonly"], ["// Look is open."]])))
     W.add("d", "funcs.go", Decl("H.Reset", ["func (h *H) Reset() { h.N = 0 }"], doc=pick([["// @testonly"], ["// Reset resets."]])))
     W.add("d", "funcs.go", Decl("H.Plain", ["func (h *H) Plain() {}"]))
     W.add("d", "funcs.go", Decl("Internal", ["func Internal() int { return 3 }"], doc=["// @packageonly " + allow_name]))
@@ -480,7 +487,7 @@ def c14_world(rng, wid, modroot="w", stats=None):
 # ------------------------------------------------------------------------------------------------
 # rendering
 
-ANCHORS = {"d": "Free", "m": "Anchor", "p1": "Anchor", "p2": "Anchor", "api": "GetT", "a": "Anchor"}
+ANCHORS = {"unsafe": "Sizeof(0)", "d": "Free", "m": "Anchor", "p1": "Anchor", "p2": "Anchor", "api": "GetT", "a": "Anchor"}
 
 
 def render(W, outdir, rng=None, layout=None, edit=None):
